@@ -5,7 +5,7 @@
          Spec/Glob.v         (declarative glob semantics) *)
 From Coq Require Import List NArith Bool String.
 From GoGit Require Import Base.Out Model.Gitignore Spec.Glob Spec.GitIgnore
-     Proofs.C49Total Proofs.C49Wild Proofs.C49Scope Proofs.C49Git Proofs.C49Names.
+     Proofs.C49Total Proofs.C49Wild Proofs.C49Scope Proofs.C49Git Proofs.C49Trim Proofs.C49Names.
 Import ListNotations.
 Local Open Scope N_scope.
 Local Open Scope string_scope.
@@ -72,6 +72,12 @@ Theorem C49_excluded_parent : forall excl fs d e rest isdir,
 Proof. exact excluded_parent. Qed.
 Print Assumptions C49_excluded_parent.
 
+(* ParsePattern's trailing-space rule (the repaired trimTrailingSpaces loop)
+   computes exactly git's trim_trailing_spaces, for every line *)
+Theorem C49_trim_eq_git : forall p, trim_trailing_spaces p = gtrim p.
+Proof. exact trim_eq_git. Qed.
+Print Assumptions C49_trim_eq_git.
+
 (* ---- go-git versus git -------------------------------------------- *)
 
 (* Full statement of the property:
@@ -90,6 +96,49 @@ Example C49_double_star_prefix_refuted :
   ignored None [([], bytes_of_string "foo**/bar")] [bytes_of_string "foobar"] false = false /\
   git_ignored None [([], bytes_of_string "foo**/bar")] [bytes_of_string "foobar"] false = true.
 Proof. vm_compute. split; reflexivity. Qed.
+
+(* one witness per known divergence class (findings/C49.json, corpus/C49):
+   left = go-git (G), right = git 2.39.5 (S); each is replayed on the real
+   code and on the git binary by every run of the check *)
+Local Notation B := bytes_of_string.
+Example C49_refuted_trailing_doublestar_dir :      (* abc/** vs directory abc *)
+  (ignored None [([], B "abc/**")] [B "abc"] true, git_ignored None [([], B "abc/**")] [B "abc"] true) = (true, false).
+Proof. vm_compute. reflexivity. Qed.
+Example C49_refuted_empty_segment :                (* //a vs a *)
+  (ignored None [([], B "//a")] [B "a"] false, git_ignored None [([], B "//a")] [B "a"] false) = (true, false).
+Proof. vm_compute. reflexivity. Qed.
+Example C49_refuted_negated_ancestor :             (* * then !foo vs foo/x *)
+  (ignored None [([], B "*
+!foo")] [B "foo"; B "x"] false, git_ignored None [([], B "*
+!foo")] [B "foo"; B "x"] false) = (false, true).
+Proof. vm_compute. reflexivity. Qed.
+Example C49_refuted_triple_star_segment :          (* a/***/b vs a/b *)
+  (ignored None [([], B "a/***/b")] [B "a"; B "b"] false, git_ignored None [([], B "a/***/b")] [B "a"; B "b"] false) = (false, true).
+Proof. vm_compute. reflexivity. Qed.
+Example C49_refuted_escaped_slash :                (* a\/b vs a/b *)
+  (ignored None [([], B "a\/b")] [B "a"; B "b"] false, git_ignored None [([], B "a\/b")] [B "a"; B "b"] false) = (false, true).
+Proof. vm_compute. reflexivity. Qed.
+Example C49_refuted_slash_in_bracket :             (* [a/b]c vs ac *)
+  (ignored None [([], B "[a/b]c")] [B "ac"] false, git_ignored None [([], B "[a/b]c")] [B "ac"] false) = (false, true).
+Proof. vm_compute. reflexivity. Qed.
+Example C49_refuted_doublestar_greedy :            (* **/a/b vs a/c/a/b *)
+  (ignored None [([], B "**/a/b")] [B "a"; B "c"; B "a"; B "b"] false,
+   git_ignored None [([], B "**/a/b")] [B "a"; B "c"; B "a"; B "b"] false) = (false, true).
+Proof. vm_compute. reflexivity. Qed.
+Example C49_refuted_whitespace_only_line :         (* a line holding TAB vs a file named TAB *)
+  (ignored None [([], [9; 10])] [[9]] false, git_ignored None [([], [9; 10])] [[9]] false) = (false, true).
+Proof. vm_compute. reflexivity. Qed.
+(* two divergences were repaired in go-git (fix: commits, findings/C49.json):
+   trailing spaces are now trimmed by a port of git's trim_trailing_spaces, and a
+   UTF-8 byte order mark at the start of an ignore file is skipped *)
+Example C49_fixed_trailing_space_escape :          (* a\<sp><sp> vs "a " ; a\\<sp> vs "a\" *)
+  (ignored None [([], B "a\  ")] [B "a "] false, git_ignored None [([], B "a\  ")] [B "a "] false) = (true, true) /\
+  (ignored None [([], B "a\\ ")] [B "a\"] false, git_ignored None [([], B "a\\ ")] [B "a\"] false) = (true, true).
+Proof. vm_compute. split; reflexivity. Qed.
+Example C49_fixed_utf8_bom :                       (* BOM a vs a *)
+  (ignored None [([], [239; 187; 191; 97; 10])] [B "a"] false,
+   git_ignored None [([], [239; 187; 191; 97; 10])] [B "a"] false) = (true, true).
+Proof. vm_compute. reflexivity. Qed.
 
 (* Partial statement: ignore files made of plain name patterns — no negation,
    no slash except an optional trailing one, glob inside the fragment, nothing
